@@ -128,6 +128,22 @@ func renderObsProcs(sc *Scenario, meta *c20Meta) {
 					q = "SELECT 1 + 1; SELECT 2 FROM DUAL;"
 				case 8:
 					q = "EXECUTE 'SOURCE `pass.sql`';"
+				case 10:
+					// session flags that say how files are read change (none of them matters for these tables):
+					// what the transaction has loaded stays what it is
+					q = "SET @@WITHOUT_NULL TO TRUE;"
+				case 11:
+					q = "SET @@ALLOW_UNEVEN_FIELDS TO TRUE;"
+				case 12:
+					q = "SET @@JSON_QUERY TO 'q';"
+				case 13:
+					q = "SET @@ENCODING TO UTF8;"
+				case 14:
+					q = "SET @@WITHOUT_NULL TO TRUE; SET @@WITHOUT_NULL TO FALSE;"
+				case 15:
+					q = "SET @@STATS TO FALSE; SET @@LIMIT_RECURSION TO 500; SET @@ANSI_QUOTES TO FALSE; SET @@STRICT_EQUAL TO FALSE;"
+				case 16:
+					q = "SET @@ALLOW_UNEVEN_FIELDS TO TRUE; SET @@JSON_QUERY TO ''; SET @@ENCODING TO AUTO;"
 				default:
 					q = "PRINTF '%s' USING 1; ECHO 'x';"
 				}
@@ -229,7 +245,7 @@ func (c20) Gen(seed uint64, tier string) *Scenario {
 				}
 				switch r.Intn(11) {
 				case 10:
-					ops = append(ops, ObsOp{Kind: "pass", Form: r.Intn(10)})
+					ops = append(ops, ObsOp{Kind: "pass", Form: r.Intn(17)})
 				case 0, 1, 2:
 					ops = append(ops, ObsOp{Kind: "sel", Table: tb, Form: r.Pick(0, 0, 0, 1, 2, 3, 4)})
 				case 3:
